@@ -950,6 +950,17 @@ impl TypedExpr {
                             continue;
                         }
                         if n < bits {
+                            // The operand is evaluated exactly once and then added up as a variable
+                            // (with a name that no identifier of a program can have):
+                            let operand = y.compile(prg, env, circuit);
+                            let operand_name = "<operand of mul>".to_string();
+                            env.push();
+                            env.let_in_current_scope(operand_name.clone(), operand);
+                            let y = Box::new(Expr {
+                                inner: ExprEnum::Identifier(operand_name),
+                                meta: y.meta,
+                                ty: y.ty.clone(),
+                            });
                             let mut expr = y.clone();
                             for _ in 0..n - 1 {
                                 expr = Box::new(Expr {
@@ -958,16 +969,18 @@ impl TypedExpr {
                                     ty: ty.clone(),
                                 });
                             }
-                            if is_neg {
-                                return Expr {
+                            let product = if is_neg {
+                                Expr {
                                     inner: ExprEnum::UnaryOp(UnaryOp::Neg, expr),
                                     meta,
                                     ty: ty.clone(),
                                 }
-                                .compile(prg, env, circuit);
+                                .compile(prg, env, circuit)
                             } else {
-                                return expr.compile(prg, env, circuit);
-                            }
+                                expr.compile(prg, env, circuit)
+                            };
+                            env.pop();
+                            return product;
                         }
                     }
                 }
